@@ -12,6 +12,7 @@ Theorem C01_safety : forall chain src draws sd sigma l,
   sched_run (link_init_slow chain src draws sd) sigma = Some l ->
   sink_bytes l ++ flow (l_stubs l) ++ pending l = src_bytes src.
 Proof. exact c01_safety. Qed.
+Print Assumptions C01_safety.
 
 (** hence what the receiver has got is always a prefix of what was sent: nothing lost,
     duplicated, reordered or altered *)
@@ -20,17 +21,20 @@ Theorem C01_prefix : forall chain src draws sd sigma l,
   sched_run (link_init_slow chain src draws sd) sigma = Some l ->
   is_prefix (sink_bytes l) (src_bytes src).
 Proof. exact c01_prefix. Qed.
+Print Assumptions C01_prefix.
 
 (** the executable schedule is one of the schedules the theorem covers *)
 Theorem C01_quiet_is_a_schedule : forall fuel horizon l l',
   run_quiet fuel horizon l = Some l' -> exists sigma, sched_run l sigma = Some l'.
 Proof. exact run_quiet_sched. Qed.
+Print Assumptions C01_quiet_is_a_schedule.
 
 Theorem C01_safety_quiet : forall chain src draws sd fuel horizon l,
   chain_ok chain ->
   run_quiet fuel horizon (link_init_slow chain src draws sd) = Some l ->
   sink_bytes l ++ flow (l_stubs l) ++ pending l = src_bytes src.
 Proof. exact c01_safety_quiet. Qed.
+Print Assumptions C01_safety_quiet.
 
 (** no stage panics or diverges on any schedule *)
 Theorem C01_never_dead : forall chain src draws sd sigma l,
@@ -38,10 +42,12 @@ Theorem C01_never_dead : forall chain src draws sd sigma l,
   sched_run (link_init_slow chain src draws sd) sigma = Some l ->
   Forall (fun s => mode_of (s_st s) <> MDead) (l_stubs l).
 Proof. exact c01_never_dead. Qed.
+Print Assumptions C01_never_dead.
 
 (** a static link never gives up on a hand-off (the 5 s WriteOutput timeout is unreachable) *)
 Theorem C01_no_give_up : forall l i, static_link l -> stub_send_timeout l i = None.
 Proof. exact static_no_send_timeout. Qed.
+Print Assumptions C01_no_give_up.
 
 (** the per-stage facts everything above rests on (any toxic proved to satisfy them inherits
     the link theorems) *)
@@ -50,20 +56,24 @@ Theorem C01_stage_input : forall tx ps now draws (c : option chunk) acc tmr s' d
   on_input tx ps now draws c (Idle acc tmr) = (s', ds) ->
   wf tx s' /\ match c with Some ch => keeps tx (cdata ch) (held s') | None => held s' = [] end.
 Proof. exact on_input_contract. Qed.
+Print Assumptions C01_stage_input.
 
 Theorem C01_stage_sent : forall tx ps now (c : chunk) k s' ps',
   attrs_ok tx -> wf tx (Send c k) -> pstate_ok tx ps ->
   on_sent tx ps now (Send c k) = (s', ps') ->
   wf tx s' /\ pstate_ok tx ps' /\ held (Send c k) = cdata c ++ held s'.
 Proof. exact on_sent_contract. Qed.
+Print Assumptions C01_stage_sent.
 
 Theorem C01_stage_interrupt : forall tx now s,
   wf tx s -> wf tx (on_interrupt now s) /\ held (on_interrupt now s) = held s.
 Proof. exact on_interrupt_contract. Qed.
+Print Assumptions C01_stage_interrupt.
 
 Theorem C01_stage_quiescent : forall s,
   match mode_of s with MSelect true _ _ | MClose | MExit => held s = [] | _ => True end.
 Proof. exact quiescent_holds_nothing. Qed.
+Print Assumptions C01_stage_quiescent.
 
 (** ---- liveness half (no deadlock). On ANY schedule of a link of data-preserving toxics: a state
     in which nothing can move (no stage, not the reader) and nothing is pending (no timer, no pause
@@ -85,6 +95,7 @@ Theorem C01_no_deadlock : forall chain src draws sd sigma l,
   | RClosed => sink_bytes l = src_bytes src /\ Forall (fun s => s_st s = Exited) (l_stubs l) /\ l_sink_closed l <> None
   end.
 Proof. exact c01_no_deadlock. Qed.
+Print Assumptions C01_no_deadlock.
 
 (** the executable run - the one compared with the real code to the nanosecond - stops only when
     the transfer is complete (or at the horizon / out of fuel, which the statement excludes) *)
@@ -95,8 +106,10 @@ Theorem C01_complete : forall chain src draws sd fuel horizon l,
   sink_bytes l = src_bytes src /\ flow (l_stubs l) = [] /\
   (l_rd l = RClosed -> Forall (fun s => s_st s = Exited) (l_stubs l) /\ l_sink_closed l <> None).
 Proof. exact c01_complete. Qed.
+Print Assumptions C01_complete.
 
 (** the invariant itself, one step of any schedule *)
 Theorem C01_closure_order_step : forall l a l',
   link_ok l -> static_link l -> closure_inv l -> sched_step l a = Some l' -> closure_inv l'.
 Proof. exact closure_step. Qed.
+Print Assumptions C01_closure_order_step.
